@@ -23,12 +23,12 @@ theorem sim_assignOp (o : Ops V) (op1 op2 : SV V) :
           · sim_auto
           · refine sim_bind (sim_get o s2) (fun af haf => ?_)
             refine sim_bind (sim_remove s1) (fun _ _ => ?_)
-            exact sim_create s1 (.list af) (by simp only; omega)
+            exact sim_create s1 (.list af)
         | num v => sim_auto
         | none => sim_auto
       · refine sim_bind (sim_get o s2) (fun af haf => ?_)
         cases op1 with
-        | tok s1 => exact sim_create s1 (.list af) (by simp only; omega)
+        | tok s1 => exact sim_create s1 (.list af)
         | num v => sim_auto
         | none => sim_auto
     | num v => sim_auto
@@ -45,17 +45,63 @@ theorem sim_assignOp (o : Ops V) (op1 op2 : SV V) :
         cases op1 <;> sim_auto
 macro_rules | `(tactic| sim_leaf) => `(tactic| exact sim_assignOp _ _ _)
 
-theorem sim_arithOp (o : Ops V) (b : BOp) (op1 op2 : SV V) (k : Nat) :
-    Sim n (fun _ => True) (arithOp (σ := St V) o b op1 op2 k) (arithOp (σ := ATab V) o b op1 op2 k) := by
+theorem sim_fnVoidOp (o : Ops V) (f inp out : String) :
+    Sim n (fun _ => True) (fnVoidOp (σ := St V) o f inp out) (fnVoidOp (σ := ATab V) o f inp out) := by
+  unfold fnVoidOp
+  cases vfn? f <;> simp only <;> sim_auto
+
+theorem sim_funcOp (o : Ops V) (op1 op2 : SV V) (out : String) :
+    Sim n (fun _ => True) (funcOp (σ := St V) o op1 op2 out) (funcOp (σ := ATab V) o op1 op2 out) := by
+  unfold funcOp
+  cases op1 with
+  | tok f =>
+    simp only
+    cases vfn? f with
+    | some vf => cases op2 <;> simp only <;> sim_auto
+    | none =>
+      simp only
+      refine sim_ite _ ?_ ?_
+      · cases op2 with
+        | tok s2 =>
+          simp only
+          refine sim_bind (sim_aggOp o f s2) (fun v _ => ?_)
+          refine sim_bind sim_size (fun k hk => ?_)
+          exact sim_bind (sim_create out (.list (List.replicate k v))) (fun _ _ => sim_pure _ trivial)
+        | num v => sim_auto
+        | none => sim_auto
+      · sim_auto
+  | num v => sim_auto
+  | none => sim_auto
+macro_rules | `(tactic| sim_leaf) => `(tactic| exact sim_funcOp _ _ _ _)
+
+theorem sim_dispatchOp (o : Ops V) (op1 op2 : SV V) (operator : String) (k : Nat) :
+    Sim n (fun _ => True) (dispatchOp (σ := St V) o op1 op2 operator k) (dispatchOp (σ := ATab V) o op1 op2 operator k) := by
+  unfold dispatchOp
+  refine sim_ite _ ?_ ?_
+  · sim_auto
+  refine sim_bind (sim_hasSV op1) (fun a1 _ => ?_)
+  refine sim_bind (sim_hasSV op2) (fun a2 _ => ?_)
+  cases a1 <;> cases a2 <;> cases op1 <;> cases op2 <;> simp only <;>
+    first
+    | sim_leaf
+    | (cases bKind? operator with
+       | none => sim_auto
+       | some b => cases b <;> simp only <;> sim_auto)
+    | (cases sKind? operator <;> simp only <;> sim_auto)
+    | (cases srKind? operator <;> simp only <;> sim_auto)
+macro_rules | `(tactic| sim_leaf) => `(tactic| exact sim_dispatchOp _ _ _ _ _)
+
+theorem sim_arithOp (o : Ops V) (operator : String) (op1 op2 : SV V) (k : Nat) :
+    Sim n (fun _ => True) (arithOp (σ := St V) o operator op1 op2 k) (arithOp (σ := ATab V) o operator op1 op2 k) := by
   unfold arithOp
   refine sim_bind (sim_isFloat o op1) (fun f1 _ => ?_)
   refine sim_bind (P := fun _ => True) ?_ (fun f2 _ => ?_)
   · sim_auto
   refine sim_ite _ ?_ ?_
+  · refine sim_bind (sim_toFloat o op1) (fun a _ => ?_)
+    refine sim_bind (sim_toFloat o op2) (fun c _ => ?_)
+    cases litOp o operator a c <;> simp only <;> sim_auto
   · sim_auto
-  refine sim_bind (sim_hasSV op1) (fun a1 _ => ?_)
-  refine sim_bind (sim_hasSV op2) (fun a2 _ => ?_)
-  cases a1 <;> cases a2 <;> cases op1 <;> cases op2 <;> simp only <;> sim_auto
 macro_rules | `(tactic| sim_leaf) => `(tactic| exact sim_arithOp _ _ _ _ _)
 
 theorem sim_applyOperation (o : Ops V) (op1 op2 : SV V) (operator : String) (k : Nat) :
@@ -64,7 +110,7 @@ theorem sim_applyOperation (o : Ops V) (op1 op2 : SV V) (operator : String) (k :
   unfold applyOperation
   refine sim_ite _ ?_ ?_
   · sim_auto
-  cases bop? operator <;> sim_auto
+  · sim_auto
 macro_rules | `(tactic| sim_leaf) => `(tactic| exact sim_applyOperation _ _ _ _ _)
 
 theorem sim_evaluateRPN (o : Ops V) (rpn : List String) (stack : List (SV V)) (k : Nat) :
@@ -97,29 +143,12 @@ theorem sim_operateStr (o : Ops V) (rpn : List String) :
   exact sim_tryFinally (sim_evaluate o rpn) sim_purge
 
 
-/-- a list handed to create / bracket assignment covers the track (Python raises IndexError mid-way otherwise
-and leaves a misaligned table: outside the property's domain) -/
-def OpOK (n : Nat) : Op V → Prop
-  | .create _ (.list l) => n ≤ l.length
-  | .setItem _ (.list l) => n ≤ l.length
-  | _ => True
-
 /-- one API call: the code's table and the specification table do the same thing -/
-theorem sim_step (o : Ops V) (op : Op V) (hok : OpOK n op) :
+theorem sim_step (o : Ops V) (op : Op V) :
     Sim n (fun _ => True) (step (σ := St V) o op) (step (σ := ATab V) o op) := by
   cases op with
-  | create nm init =>
-    unfold step
-    refine sim_bind (sim_create nm init ?_) (fun _ _ => sim_pure _ trivial)
-    cases init with
-    | scalar _ => trivial
-    | list l => exact hok
-  | setItem nm init =>
-    unfold step
-    refine sim_bind (sim_setItem nm init ?_) (fun _ _ => sim_pure _ trivial)
-    cases init with
-    | scalar _ => trivial
-    | list l => exact hok
+  | create nm init => unfold step; exact sim_bind (sim_create nm init) (fun _ _ => sim_pure _ trivial)
+  | setItem nm init => unfold step; exact sim_bind (sim_setItem nm init) (fun _ _ => sim_pure _ trivial)
   | update nm init => unfold step; sim_auto
   | remove nm => unfold step; sim_auto
   | setObs nm i v => unfold step; sim_auto
@@ -132,6 +161,12 @@ theorem sim_step (o : Ops V) (op : Op V) (hok : OpOK n op) :
     unfold step; exact sim_bind (sim_opaqueVoid o cols cells out vals) (fun _ _ => sim_pure _ trivial)
   | reverser inp out => unfold step; exact sim_bind (sim_reverser o inp _) (fun _ _ => sim_pure _ trivial)
   | probe cols cells => unfold step; sim_auto
+  | fnVoid f inp out => unfold step; exact sim_fnVoidOp o f inp _
+  | scalarK k inp arg out => unfold step; sim_auto
+  | aggFn f inp => unfold step; sim_auto
+  | absCurv => unfold step; exact sim_bind (sim_absCurvOp o) (fun _ _ => sim_pure _ trivial)
+  | estSpeed => unfold step; exact sim_bind (sim_estSpeedOp o) (fun _ _ => sim_pure _ trivial)
+  | segment inp out thr => unfold step; exact sim_bind (sim_segmentOp o inp out thr) (fun _ _ => sim_pure _ trivial)
   | expr rpn => unfold step; exact sim_operateStr o rpn
 
 end TV.Features
